@@ -80,11 +80,44 @@ def ecFromJwk (k : Jwk) : Option (Curve × Nat × Nat) :=
 
 def edToJwk (pub : Bytes) : Jwk := { kty := "OKP", crv := "Ed25519", x := b64EncodeStr pub }
 
-/-- `GetED25519PublicKey`: `x` must decode to exactly 32 bytes -/
+/-! #### edwards25519: is a 32-byte string the RFC 8032 encoding of a point? -/
+
+namespace Ed
+def p : Nat := 2 ^ 255 - 19
+def d : Nat := 37095705934669439343138083508754565189542113879843219016388785533085940283555
+
+/-- `b ^ e mod m` by repeated squaring (fuel = number of bits of `e` that are looked at) -/
+def powMod (m : Nat) : Nat → Nat → Nat → Nat
+  | 0, _, _ => 1 % m
+  | fuel + 1, b, e =>
+    if e = 0 then 1 % m
+    else
+      let h := powMod m fuel ((b * b) % m) (e / 2)
+      if e % 2 = 1 then (b * h) % m else h
+
+/-- little-endian value of the 32 bytes with the sign bit (top bit of the last byte) cleared, and that bit -/
+def decodeY (bs : Bytes) : Nat × Bool :=
+  let v := fromBE bs.reverse
+  (v % 2 ^ 255, decide (v / 2 ^ 255 % 2 = 1))
+
+/-- `y < p` and `x² = (y² - 1) / (d·y² + 1)` is a square (Euler's criterion); `x = 0` carries no sign bit -/
+def isPoint (bs : Bytes) : Bool :=
+  let (y, sign) := decodeY bs
+  if y ≥ p then false
+  else
+    let y2 := (y * y) % p
+    let u := (y2 + p - 1) % p
+    let v := (d * y2 + 1) % p
+    let x2 := (u * powMod p 256 v (p - 2)) % p
+    if x2 = 0 then !sign
+    else powMod p 256 x2 ((p - 1) / 2) = 1
+end Ed
+
+/-- `GetED25519PublicKey`: `x` must decode to exactly 32 bytes that encode a point of the curve -/
 def edFromJwk (k : Jwk) : Option Bytes :=
   if k.kty ≠ "OKP" ∨ k.crv ≠ "Ed25519" then none
   else match b64DecodeStr k.x with
-    | some xb => if xb.length = 32 then some xb else none
+    | some xb => if xb.length = 32 ∧ Ed.isPoint xb then some xb else none
     | none => none
 
 /-! ### signatures -/
